@@ -40,6 +40,8 @@ Apply(op) ==
     CASE op.a = "init" -> S' = S0 /\ out' = [op |-> op, res |-> 0]
       [] op.a = "ins" -> IF S.active THEN Insert(op.k) ELSE Skip(op)
       [] op.a = "ins_nt" -> IF S.active THEN InsertNoTurn(op.k) ELSE Skip(op)
+      [] op.a = "ins_h" -> IF S.active THEN InsertHold(op.k) ELSE Skip(op)
+      [] op.a = "drop_h" -> DropHeld
       [] op.a = "rem" -> IF S.active THEN Remove(op.k) ELSE Skip(op)
       [] op.a = "get" -> IF S.active THEN Get(op.k) ELSE Skip(op)
       [] op.a = "sload" -> IF S.active THEN SLoad(op.k) ELSE Skip(op)
@@ -51,7 +53,7 @@ Apply(op) ==
       [] op.a = "gate_on" -> IF S.active /\ ~S.gate THEN GateOn ELSE Skip(op)
       [] op.a = "gate_off" -> IF S.gate THEN GateOff ELSE Skip(op)
       [] op.a = "gate_step" -> IF S.gate /\ S.inio /\ S.hold THEN GateStep ELSE Skip(op)
-      [] op.a = "close" -> IF S.active /\ ~S.hold /\ ~S.gate THEN Close ELSE Skip(op)
+      [] op.a = "close" -> IF S.active /\ ~S.hold /\ ~S.gate /\ S.heldph = <<>> THEN Close ELSE Skip(op)
       [] op.a = "reopen" -> IF ~S.active THEN Reopen ELSE Skip(op)
 
 Count(s, x) == Cardinality({i \in DOMAIN s : s[i] = x})
@@ -64,7 +66,12 @@ Bad(op, o, T, exp) ==
         k == IF isLookup THEN op.k ELSE 0
         known(v) == v \in 1 .. Len(T.vkey)
         resTags ==
-            IF ~isLookup \/ r = exp THEN {}
+            IF ~isLookup THEN {}
+            \* finding F12 (open): judged on the truth of the key, also when the specification - which models
+            \* what the code does - expects exactly this answer
+            ELSE IF k \in T.late /\ r # 0 /\ r < 1000000 /\ r # T.truth[k]
+                 THEN {<<"C01", "older_version_republished_by_late_drop_of_diskonly_handle">>}
+            ELSE IF r = exp THEN {}
             ELSE IF r < 0 THEN {<<"tool", "lookup_failed_or_incomplete">>}
             ELSE IF r >= 1000000 \/ (known(r) /\ T.vkey[r] # k) THEN {<<"C17", "foreign_value">>}
             ELSE IF op.a = "sload" THEN {<<"drift", "store_load">>}
@@ -103,7 +110,7 @@ Bad(op, o, T, exp) ==
         memExp == [i \in 1 .. Len(KeySeq) |-> IF InMem(T, KeySeq[i]) THEN 1 ELSE 0]
         memTags ==
             \* the advice governs the insert (a later lookup may populate memory from disk)
-            IF op.a \in {"ins", "ins_nt"} /\ KeyLoc[op.k] = "ondisk" /\ \E i \in 1 .. Len(KeySeq) : KeySeq[i] = op.k /\ o.mem[i] = 1
+            IF op.a \in {"ins", "ins_nt", "ins_h"} /\ KeyLoc[op.k] = "ondisk" /\ \E i \in 1 .. Len(KeySeq) : KeySeq[i] = op.k /\ o.mem[i] = 1
             THEN {<<"C12", "ondisk_entry_retained_in_memory">>}
             ELSE IF o.mem = memExp THEN {} ELSE {<<"drift", "residency">>}
         dskExp == [i \in 1 .. Len(KeySeq) |-> IF T.index[Hash[KeySeq[i]]].kind = "addr" THEN 1 ELSE 0]
